@@ -176,6 +176,7 @@ func init() {
 		"(*sync.Mutex).Unlock": func(fr *frame, a []value) value { fr.i.sched.unlock(a[0].(*value)); return nil },
 		"(*sync/atomic.Value).Load": func(fr *frame, a []value) value {
 			fr.i.sched.yield()
+			fr.i.sched.acquireAddr(a[0].(*value))
 			return (*a[0].(*value)).(structure)[0]
 		},
 		"(*sync/atomic.Value).Store": func(fr *frame, a []value) value {
@@ -184,17 +185,21 @@ func init() {
 				panic(targetPanic{"sync/atomic: store of nil value into Value"})
 			}
 			(*a[0].(*value)).(structure)[0] = a[1]
+			fr.i.sched.releaseAddr(a[0].(*value))
 			return nil
 		},
 		"sync/atomic.LoadUint32": func(fr *frame, a []value) value {
 			fr.i.sched.yield()
+			fr.i.sched.acquireAddr(a[0].(*value))
 			return *a[0].(*value)
 		},
 		"sync/atomic.AddUint32": func(fr *frame, a []value) value {
 			fr.i.sched.yield()
 			p := a[0].(*value)
+			fr.i.sched.acquireAddr(p)
 			n := binop(fr.i, token.ADD, nil, *p, a[1])
 			*p = n
+			fr.i.sched.releaseAddr(p)
 			return n
 		},
 		// ---- unicode
